@@ -16,8 +16,11 @@ N = "crates/synthesizer/src/aig/npn4.rs"
 IR = "crates/synthesizer/src/ir.rs"
 
 # E1: the `use` lines of the real files are dropped; these fixed preludes bind the same names to the extracted items / stand-ins
-USE_GRAPH = "use crate::vpmap::HashMap;\nuse crate::ir::NetId;\n"
-USE_TECHMAP = "use crate::graph::{AigEdge, AigModule, AigNode};\nuse crate::ir::{CellKind, NetId};\n"
+USE_GRAPH = "use crate::vpmap::HashMap;\nuse crate::vpvec::Vec;\nuse crate::ir::NetId;\n"
+# E1v: in module techmap `Vec` / `vec!` are the array-backed stand-in (CompoundMatch.inputs / inner_ands, the refcount tables)
+USE_TECHMAP = ("use crate::graph::{AigEdge, AigModule, AigNode};\nuse crate::ir::{CellKind, NetId};\nuse crate::vpvec::Vec;\n"
+               "macro_rules! vec {\n    () => { crate::vpvec::Vec::new() };\n    ($e:expr; $n:expr) => { crate::vpvec::Vec::from_elem($e, $n) };\n"
+               "    ($($x:expr),+ $(,)?) => { crate::vpvec::Vec::from_list([$($x),+]) };\n}\n")
 USE_REWRITE = ("use crate::vpmap::HashMap;\nuse crate::graph::{AigEdge, AigModule, AigNode};\n"
                "use crate::npn4::{self, AigPattern, PatEdge, Tt4, VAR_TT};\n")
 # in module rewrite_lib the name `npn4` is bound to the oracle stand-ins (npn_canonical / lookup_canonical answer with symbolic values that
